@@ -91,7 +91,9 @@ def gen_cm(rnd):
     X = rnd.choice([[], [], [3], [2, 2], [0], [2, 1]])
     n = int(np.prod(X + [N, N])) if X + [N, N] else 1
     data = [rnd.choice([0, 0, 1, 2, 5, rnd.randint(0, 40)]) for _ in range(n)]
-    spec = {"kind": "cm", "binary": binary, "N": N, "X": X, "data": data}
+    spec = {"kind": "cm", "binary": binary, "N": N, "X": X, "data": data, "float": rnd.random() < 0.3}
+    if spec["float"] and rnd.random() < 0.5:
+        spec["data"] = [v + rnd.choice([0.0, 0.5, 0.25]) for v in data]  # weighted counts
     if not binary and rnd.random() < 0.4:
         spec["classes"] = rnd.sample(["a", "b", "c", "d", "e"], N)
     return spec
@@ -138,6 +140,9 @@ def generate(rnd, tier):
             o = gen_cm(rnd)
         objects.append(o)
     arrays = [gen_array(rnd, "thr") for _ in range(rnd.randint(1, 3))] + [gen_array(rnd, "rate") for _ in range(rnd.randint(1, 3))]
+    pts = sorted({round(rnd.uniform(-7, 7), 2) for _ in range(rnd.randint(3, 12))})
+    arrays.append({"shape": [len(pts)], "data": pts, "kind": "points", "readonly": rnd.random() < 0.4, "scalar_as": None})
+    points_idx = len(arrays) - 1
     thr_idx = [i for i, a in enumerate(arrays) if a["kind"] == "thr"]
     rate_idx = [i for i, a in enumerate(arrays) if a["kind"] == "rate"]
     n_clients = rnd.randint(1, 3)
@@ -168,7 +173,8 @@ def generate(rnd, tier):
                            "method": rnd.choice(["linear", "lower", "higher"])})
             elif k < 0.70:
                 op.update({"op": "thr_at_metric", "x": rnd.choice(rate_idx), "metric": rnd.choice(["fnr", "fpr", "tpr", "callable", "callable"]),
-                           "points": rnd.choice([None, None, 5, 17, "array"]), "cb": rnd.choice([None, None, "reenter", "raise"])})
+                           "points": rnd.choice([None, None, 5, 17, "array", "array"]), "points_x": points_idx,
+                           "cb": rnd.choice([None, None, "reenter", "raise"])})
             elif k < 0.75:
                 op.update({"op": "eer"})
             elif k < 0.82:
@@ -247,7 +253,7 @@ def generate(rnd, tier):
 def build_cm(spec, L=None):
     L = L or lib()
     N, X = spec["N"], spec["X"]
-    m = np.asarray(spec["data"], dtype=np.int64).reshape(X + [N, N])
+    m = np.asarray(spec["data"], dtype=float if spec.get("float") else np.int64).reshape(X + [N, N])
     kw = {}
     if spec.get("classes"):
         kw["classes"] = list(spec["classes"])
@@ -322,8 +328,9 @@ def evaluate(o, op, args, state, L=None):
                 return s.fnr(t) + 2.0 * s.fpr(t)
         pts = op.get("points")
         if pts == "array":
-            pts = np.linspace(-6.0, 6.0, 9)
-            state["points"] = pts
+            pts = args.get(op.get("points_x"))  # a caller array from the side pool (increasing, maybe read-only)
+            if not isinstance(pts, np.ndarray) or pts.ndim != 1 or pts.size < 2:
+                pts = np.linspace(-6.0, 6.0, 9)
         return o.threshold_at_metric(x, metric, points=pts)
     if k == "eer":
         return o.eer()
@@ -434,6 +441,15 @@ def shape_law(o, op, x, r, L):
         if not isinstance(r, L.ConfusionMatrix) or r.matrix.shape != Xm + (N, 2, 2) or not r.binary:
             return f"one_vs_all on {o.matrix.shape} returned {getattr(getattr(r, 'matrix', None), 'shape', None)}"
     return None
+
+
+def _works_with_writable_copies(twin, op, args, L2):
+    copies = {i: (np.array(v, copy=True) if isinstance(v, np.ndarray) else v) for i, v in args.items()}
+    try:
+        evaluate(twin, op, copies, {}, L2)
+        return True
+    except Exception:  # noqa: BLE001
+        return False
 
 
 def scalarise(v):
@@ -676,6 +692,11 @@ def execute(scn, ctx):
             if exp_ok:
                 viol.append({"invariant": "C10.twin_equal", "tags": tags,
                              "detail": f"{k}({tags['name']}) raised {type(res['value']).__name__}: {res['value']} on the shared object but succeeds on a pristine twin [op {step}]"})
+            elif not st_real.get("cb_raise") and any(isinstance(v, np.ndarray) and not v.flags.writeable for v in args.values()) \
+                    and _works_with_writable_copies(twin_of(oi), op, args, L2):
+                viol.append({"invariant": "C10.readonly_argument_rejected", "tags": tags,
+                             "detail": f"{k}({tags['name']}) raises {type(res['value']).__name__}: {res['value']} for a read-only argument array but works on a "
+                                       f"writable copy: the query tries to write into the caller's array [op {step}]"})
             elif type(exp) is not type(res["value"]):
                 viol.append({"invariant": "C10.twin_equal", "tags": tags,
                              "detail": f"{k}({tags['name']}) raised {type(res['value']).__name__} on the shared object, {type(exp).__name__} on a pristine twin [op {step}]"})
